@@ -12,7 +12,7 @@ PROFILES = [
                             p_constraint=.5)),
     ('sel_con', .1, dict(p_incompat=.3, p_constraint=1.0, n_steps=(5, 10))),
     ('dv', .15, dict(p_incompat=.2, n_dv=(1, 3), p_dv_link=.5, n_metric=(0, 2), n_steps=(3, 8))),
-    ('conn_grp', .3, dict(p_incompat=.15, n_conn=(1, 1), p_grp=.7, p_conn_cond=.7, p_side_cond=.35, p_grp_open=.3, n_steps=(2, 6),
+    ('conn_grp', .3, dict(p_incompat=.15, n_conn=(1, 1), p_grp=.7, p_conn_cond=.7, p_side_cond=.35, p_grp_open=.3, p_grp_twin=.35, n_steps=(2, 6),
                           max_sel=3, max_opts=3)),
     ('conn', .15, dict(p_incompat=.15, n_conn=(1, 2), p_grp=.2, n_steps=(2, 6), max_sel=3, max_opts=3,
                        n_dv=(0, 1))),
